@@ -15,6 +15,11 @@ N = "menelaus.partitioners.KDQTreePartitioner:KDQTreeNode"
 CNT = "num_samples_in_compared_subtrees"
 
 SPEC = '''
+@recursive("Array[Real]", "Array[Real]", "Int", "Real")
+def kl_sum(p, q, k):
+    # sum over the first k cells of p * log(p / q): the Kullback-Leibler divergence of two distributions
+    return 0 if k <= 0 else kl_sum(p, q, k - 1) + p[k - 1] * log(p[k - 1] / q[k - 1])
+
 def tree_inv2(n):
     # the class invariant of a node and of its two children (if any)
     return invariant_of(n) and (n.left is None or invariant_of(n.left)) and (n.right is None or invariant_of(n.right))
@@ -76,3 +81,45 @@ def register(R):
                         "implies(result is not None and result.axis is not None, "
                         "result.left.%s['build'] >= 1 and result.right.%s['build'] >= 1)" % (CNT, CNT)],
                modifies=None, check_invariant=False, assume_invariant=False)
+
+    # reset writes the same value into every node of the subtree (only value 0 keeps counts = sum of children)
+    R.contract(N + ".reset", tags=("C08",), modular=True,
+               params={"node": "Lazy[KDQTreeNode]", "value": "Int", "tree_id": "Str"},
+               assume=["node is None or tree_inv2(node)"],
+               ensures=["implies(node is not None, keyof(tree_id) in node.%s and node.%s[tree_id] == value)" % (CNT, CNT),
+                        "implies(node is not None, %s)" % OTHERS,
+                        "implies(node is not None, %s)" % SHAPE_KEPT,
+                        "implies(node is not None and value == 0, invariant_of(node))",
+                        "result is None"],
+               modifies=["subtree:node:%s" % CNT], check_invariant=False, assume_invariant=False)
+
+    P = "menelaus.partitioners.KDQTreePartitioner:KDQTreePartitioner"
+    R.klass(P, fields={"count_ubound": "Int", "cutpoint_proportion_lbound": "Real", "node": "Lazy[KDQTreeNode]",
+                       "leaves": "Opaque[AnyList]"}, invariant=[])
+    PN = NEWCOUNT.replace("node.", "self.node.")
+    PO = OTHERS.replace("node.", "self.node.")
+    R.contract(P + ".fill", tags=("C08",), params={"data": "Nd2c", "tree_id": "Str", "reset": "Bool"},
+               calls={N + ".fill": "contract"},
+               assume=["self.node is None or tree_inv2(self.node)",
+                       "implies(self.node is not None and self.node.axis is not None, self.node.axis < mcols(data))"],
+               ensures=["(result is None) == (self.node is None)", "(self.node is None) == old(self.node is None)",
+                        # adding to existing counts unless reset is requested; every other tree id untouched
+                        "implies(self.node is not None, keyof(tree_id) in self.node.%s and self.node.%s[tree_id] == %s)" % (CNT, CNT, PN),
+                        "implies(self.node is not None, %s)" % PO,
+                        "implies(self.node is not None, invariant_of(self.node))"],
+               modifies=[], check_invariant=False, assume_invariant=False)
+    R.contract(P + ".reset", tags=("C08",), params={"value": "Int", "tree_id": "Str"},
+               calls={N + ".reset": "contract"},
+               assume=["self.node is None or tree_inv2(self.node)"],
+               ensures=["implies(self.node is not None, keyof(tree_id) in self.node.%s and self.node.%s[tree_id] == value)" % (CNT, CNT),
+                        "implies(self.node is not None, %s)" % PO,
+                        "implies(self.node is not None and value == 0, invariant_of(self.node))"],
+               modifies=[], check_invariant=False, assume_invariant=False)
+
+    # Gibbs' inequality, cell by cell: sum p log(p/q) >= sum p - sum q (= 0 for two distributions), equality for p = q
+    R.lemma("kl_lower_bound", params={"p": "List[Real]", "q": "List[Real]", "k": "Int"},
+            requires=["k >= 0", "forall(i, 0, k, p[i] > 0 and q[i] > 0)"],
+            ensures=["kl_sum(p, q, k) >= asum(p, 0, k) - asum(q, 0, k)"], induct=("k", "0"),
+            mention=["log(p[k - 1] / q[k - 1])"])
+    R.lemma("kl_identity", params={"p": "List[Real]", "k": "Int"}, requires=["k >= 0", "forall(i, 0, k, p[i] > 0)"],
+            ensures=["kl_sum(p, p, k) == 0"], induct=("k", "0"))
